@@ -246,4 +246,27 @@ theorem health_and_mux_accepted (r : Req) (policy : Policy) (authn : Option Auth
         cases h1 : fa.isSome <;> cases h2 : env.datagramAuthFails <;> simp_all
       simp [this]
 
+/-! ## OS errors of the outbound connect (direct forwarder) -/
+
+/-- **no route is reported as unreachable, a timed-out connect as timed out, anything else as failed**: ENETUNREACH
+(101) and EHOSTUNREACH (113) both give `502` with warning 301, ETIMEDOUT (110) warning 302, every other error
+number warning 300 (the classification lists are re-read from `io_to_connection_error` on every run) -/
+theorem os_error_codes :
+    (∀ e ∈ [101, 113], failWith (connErrOfErrno e) = .response ⟨502, [.warn 301]⟩)
+    ∧ failWith (connErrOfErrno 110) = .response ⟨502, [.warn 302]⟩
+    ∧ (∀ e, e ∉ [101, 113, 110] → failWith (connErrOfErrno e) = .response ⟨502, [.warn 300]⟩) := by
+  refine ⟨by decide, by decide, ?_⟩
+  intro e he
+  have h1 : unreachableErrnos.contains e = false := by
+    simp only [unreachableErrnos, List.contains_cons, List.contains_nil, Bool.or_false, Bool.or_eq_false_iff, beq_eq_false_iff_ne]
+    simp only [List.mem_cons, List.not_mem_nil, or_false, not_or] at he
+    exact ⟨he.1, he.2.1⟩
+  have h2 : timedOutErrnos.contains e = false := by
+    simp only [timedOutErrnos, List.contains_cons, List.contains_nil, Bool.or_false, beq_eq_false_iff_ne]
+    simp only [List.mem_cons, List.not_mem_nil, or_false, not_or] at he
+    exact he.2.2
+  have h1' : e ∉ unreachableErrnos := by simpa using h1
+  have h2' : e ∉ timedOutErrnos := by simpa using h2
+  simp [connErrOfErrno, h1', h2', failWith, statusOf, warnOf]
+
 end TT.Dispatch
